@@ -682,7 +682,8 @@ void matvec_laws(std::vector<op<R, K>> const &fa, std::vector<op<K, C>> const &f
 // ------------------------------------------------------------------ drivers over families
 template <sz R, sz C> void shape_unary_all(std::vector<op<R, C>> const &fam, std::vector<long> const &scalars)
 {
-  write_access_case<R, C>();
+  if constexpr (int_writes_ok)
+    write_access_case<R, C>();
   for (auto const &A : fam)
   {
     if (vrt::out_of_time())
